@@ -180,6 +180,16 @@ func mutationsOfA(doc any, restricted bool) []mutation {
 				for _, a := range crsAlternatives {
 					out = append(out, mutation{Path: p, Replace: a.v, Name: "=" + a.name})
 				}
+				// the same reference written in the other of its two forms (string <-> object with a uri): the document
+				// then spells one uri both ways (crs and boundingBox.crs)
+				switch c := cur.(type) {
+				case string:
+					out = append(out, mutation{Path: p, Replace: map[string]any{"uri": c}, Name: "=crs-same-uri-as-object"})
+				case map[string]any:
+					if u, ok := c["uri"].(string); ok {
+						out = append(out, mutation{Path: p, Replace: u, Name: "=crs-same-uri-as-string"})
+					}
+				}
 			}
 		}
 	}
@@ -558,6 +568,21 @@ func explore(r *ev.Run, sd *c16Shard, seen map[[16]byte]struct{}, base string, r
 	level := []item{{base, nil}}
 	seen[digest(canon(root))] = struct{}{}
 	completed := 0
+	// sentinel: the root document, decoded once and kept.  Decoding other documents must not change a value decoded
+	// earlier: its encoding is compared with the first one after every judged document.
+	var sentinel *tms20.TileMatrixSet
+	var sentinelEnc []byte
+	resetSentinel := func() {
+		sentinel, sentinelEnc = nil, nil
+		var t tms20.TileMatrixSet
+		defer func() { _ = recover() }()
+		if json.Unmarshal([]byte(canon(root)), &t) == nil {
+			if e, err := json.Marshal(&t); err == nil {
+				sentinel, sentinelEnc = &t, e
+			}
+		}
+	}
+	resetSentinel()
 	for d := 1; d <= depth; d++ {
 		var next []item
 		for _, it := range level {
@@ -590,6 +615,17 @@ func explore(r *ev.Run, sd *c16Shard, seen map[[16]byte]struct{}, base string, r
 				sig, what, acc := judgeDoc([]byte(key), t2, false)
 				if sig != "" {
 					r.Violation(sig, fmt.Sprintf("%s + %d mutation(s) (last: %s at %v): %s", it.base, len(muts), m.Name, m.Path, what), c16Case{Base: it.base, Mutations: muts, Document: key})
+				}
+				if sentinel != nil {
+					var e []byte
+					func() {
+						defer func() { _ = recover() }()
+						e, _ = json.Marshal(sentinel)
+					}()
+					if !bytes.Equal(e, sentinelEnc) {
+						r.Violation("decoded-value-changed-by-later-decode", fmt.Sprintf("%s was decoded and encoded; after decoding another document (%s + %d mutation(s), last: %s at %v) the same value encodes differently", it.base, it.base, len(muts), m.Name, m.Path), c16Case{Base: it.base, Mutations: muts, Document: key})
+						resetSentinel()
+					}
 				}
 				if acc {
 					sd.Accepted++
